@@ -3,7 +3,7 @@
 # confirms a sub-agent's change (demo OK on clean tree, FAIL with patch, pinned suite unchanged) and runs the check(s) on it
 prop=$1; wt=$2; out=$3; shift 3
 checks=${*:-$prop}
-cd $wt && git checkout -q -- src
+cd $wt && git checkout -q -- src && git checkout -q --detach main
 echo "--- demo on clean tree"; PYTHONPATH=$wt/src /venv/bin/python $out/demo.py 2>&1 | grep -v WARNING | tail -2; echo "rc=$?"
 git apply $out/patch.diff || { echo "PATCH DOES NOT APPLY"; exit 3; }
 echo "--- demo with patch"; PYTHONPATH=$wt/src /venv/bin/python $out/demo.py > /tmp/demo_out.txt 2>&1; echo "rc=$?"; grep -v WARNING /tmp/demo_out.txt | tail -3
@@ -13,4 +13,4 @@ for c in $checks; do
   echo "--- check $c on the patched tree"
   PDT_VERIF_REPO_SRC=$wt/src ./check $c --tier quick 2>&1 | grep -v WARNING | grep -v '^KNOWN' | grep -E "VIOLATION|oracle=|runs=|configurations=|HARNESS" | head -6 | cut -c1-330
 done
-cd $wt && git checkout -q -- src
+cd $wt && git checkout -q -- src && git checkout -q --detach main
